@@ -309,3 +309,23 @@ impl RenetServer {
         Ok(())
     }
 }
+
+#[cfg(feature = "verif_hooks")]
+impl RenetServer {
+    /// Read-only access to the connection object of a client.
+    pub fn verif_connection(&self, client_id: ClientId) -> Option<&RenetClient> {
+        self.connections.get(&client_id)
+    }
+
+    /// Mutable access to the connection object of a client (counter presets only).
+    pub fn verif_connection_mut(&mut self, client_id: ClientId) -> Option<&mut RenetClient> {
+        self.connections.get_mut(&client_id)
+    }
+
+    /// All connection ids held, connected or not, sorted.
+    pub fn verif_all_ids(&self) -> Vec<ClientId> {
+        let mut ids: Vec<ClientId> = self.connections.keys().copied().collect();
+        ids.sort_unstable();
+        ids
+    }
+}
